@@ -706,3 +706,334 @@ def task_c13_unknown_tag():
         run.fail("C13|parse[unknown tag]/is-rejected", "an element whose tag names no protocol %s was parsed" % ("message" if which == 0 else "part"),
                  witness=c13_witness(I, {"tag": t, "what": "parse"}))
     return task
+
+
+# =====================================================================================================
+# C03 -- serialize-then-parse is the identity
+# =====================================================================================================
+def stripped_text(I, base):
+    """text XML can carry without surrounding whitespace (the statement excludes it), or absent"""
+    from pyvc.strings import STRIPPED, py_strip
+    s = I.fresh_sym(base)
+    t = s.term
+    I.prover.assume(z3.Or(is_none(t), is_str(t)))
+    I.prover.assume(implies(is_str(t), z3.And(z3.InRe(get_s(t), STRIPPED), py_strip(get_s(t)) == get_s(t))))
+    return s
+
+
+def valid_args(I, cls, tag, prefix):
+    """constructor arguments of a valid protocol message: parameters without default are
+    present; the element text (`value`) has no surrounding whitespace"""
+    names, required = init_params(cls)
+    kw = {}
+    for p in names:
+        if p == "children":
+            continue
+        if p == "value":
+            v = stripped_text(I, "%s_%s" % (prefix, p))
+        else:
+            v = any_val(I, "%s_%s" % (prefix, p))
+        if p in required:
+            I.prover.assume(z3.Not(is_none(v.term)))
+        kw[p] = v
+    return kw
+
+
+def render(I, v):
+    """wire rendering of an attribute: None stays absent, anything else is str(v)"""
+    from pyvc.builtins_model import py_str_of
+    t = I.to_term(v)
+    return z3.If(is_none(t), VNone, VStr(get_s(I.to_term(py_str_of(I, v)))))
+
+
+def norm_text(I, v):
+    """statement's normalisation of text: empty text equals absent text"""
+    r = render(I, v)
+    return z3.If(r == VStr(z3.StringVal("")), VNone, r)
+
+
+def same_after_roundtrip(I, run, label, m, m2, text_field="value"):
+    ok = True
+    run.oblige("C03|%s/same-kind" % label, z3.BoolVal(isinstance(m2, IObject) and m2.cls is m.cls))
+    if not (isinstance(m2, IObject) and m2.cls is m.cls):
+        return False
+    run.oblige("C03|%s/same-set-of-fields" % label, z3.BoolVal(list(m.fields) == list(m2.fields)))
+    for f, v in m.fields.items():
+        if f == "children" or f not in m2.fields:
+            continue
+        want = norm_text(I, v) if f == text_field else render(I, v)
+        run.oblige("C03|%s/attribute-%s-survives" % (label, f), I.to_term(m2.fields[f]) == want)
+    return ok
+
+
+def xml_equal(I, a, b):
+    """element equality: tag, attributes (names, values, order), text, children"""
+    from pyvc.builtins_model import py_eq
+    cs = [py_eq(I, a.tag, b.tag)]
+    ka, kb = list(a.attrib.d), list(b.attrib.d)
+    if ka != kb:
+        return z3.BoolVal(False)
+    cs.append(py_eq(I, a.attrib, b.attrib))
+    # the serializer writes empty text and absent text identically (short empty element)
+    empty = VStr(z3.StringVal(""))
+    ta = I.to_term(a.text) if a.text is not None else VNone
+    tb = I.to_term(b.text) if b.text is not None else VNone
+    cs.append(z3.If(ta == empty, VNone, ta) == z3.If(tb == empty, VNone, tb))
+    if len(a.children) != len(b.children):
+        return z3.BoolVal(False)
+    for x, y in zip(a.children, b.children):
+        cs.append(xml_equal(I, x, y))
+    cs = [z3.BoolVal(c) if isinstance(c, bool) else c for c in cs]
+    return z3.And(*cs)
+
+
+def c03_witness(I, m):
+    w0 = c20_witness(I, m, m)
+
+    def w(model):
+        d = w0(model)
+        return {"replay_kind": "codec.roundtrip", "m": d["a"]}
+    return w
+
+
+def task_c03_message(ident, nchildren):
+    def task(I, run):
+        base = I.import_module("indi.message.base")
+        I.import_module("indi.message")
+        cls = find_class(I, ident)
+        tag = tag_of(I, cls)
+        label = "roundtrip[%s,%d children]" % (tag, nchildren)
+        kcls = children_class_of(I, cls)
+        names, _ = init_params(cls)
+        kw = valid_args(I, cls, tag, "m")
+        if "children" in names and kcls is not None:
+            items = []
+            try:
+                for c in range(nchildren):
+                    items.append(I.call(kcls, [], valid_args(I, kcls, tag_of(I, kcls), "c%d" % c)))
+            except IRaise:
+                raise PathEnd()      # not a valid child
+            kw["children"] = tuple(items)
+        elif nchildren:
+            raise PathEnd()
+        try:
+            m = I.call(cls, [], kw)
+        except IRaise:
+            raise PathEnd()          # not a valid message
+        run.explorer.witness = c03_witness(I, m)
+        run.cover("cover[%s]" % label)
+        IM = base.ns["IndiMessage"]
+        try:
+            e = I.call(I.getattr(m, "to_xml"), [], {})
+        except IRaise as ex:
+            run.fail("C03|%s/serialising-a-valid-message-raises-nothing" % label, "to_xml raised %s" % ex)
+            return
+        run.oblige("C03|%s/element-tag-is-the-kind's-tag" % label, z3.BoolVal(e.tag == tag))
+        import copy
+        e_snapshot = snapshot_xml(e)
+        try:
+            m2 = I.call(I.getattr(IM, "from_xml"), [e], {})
+        except IRaise as ex:
+            run.fail("C03|%s/own-output-parses" % label, "from_xml(to_xml(m)) raised %s" % ex)
+            return
+        same_after_roundtrip(I, run, label, m, m2)
+        ch, ch2 = m.fields.get("children", MISSING), m2.fields.get("children", MISSING) if isinstance(m2, IObject) else MISSING
+        if ch is not MISSING and isinstance(m2, IObject) and m2.cls is m.cls:
+            l1 = list(ch) if isinstance(ch, tuple) else list(ch.items)
+            l2 = list(ch2) if isinstance(ch2, tuple) else (list(ch2.items) if isinstance(ch2, IList) else None)
+            run.oblige("C03|%s/same-number-of-children" % label, z3.BoolVal(l2 is not None and len(l1) == len(l2)))
+            if l2 is not None and len(l1) == len(l2):
+                for n_, (x, y) in enumerate(zip(l1, l2)):
+                    same_after_roundtrip(I, run, "%s/child-%d" % (label, n_), x, y)
+        if isinstance(m2, IObject):
+            try:
+                e2 = I.call(I.getattr(m2, "to_xml"), [], {})
+                run.oblige("C03|%s/second-serialisation-is-identical" % label, xml_equal(I, e_snapshot, e2))
+            except IRaise as ex:
+                run.fail("C03|%s/second-serialisation-raises-nothing" % label, "to_xml of the parsed message raised %s" % ex)
+        run.canary("C03|canary[%s]/every-attribute-is-lost" % label, z3.BoolVal(False))
+        # byte level: to_string / from_string under the assumed serializer/parser round-trip contract
+        install_et_contract(I)
+        try:
+            data = I.call(I.getattr(m, "to_string"), [], {})
+            m3 = I.call(I.getattr(IM, "from_string"), [data], {})
+        except IRaise as ex:
+            run.fail("C03|%s/from_string(to_string(m))-raises-nothing" % label, "raised %s" % ex)
+            return
+        same_after_roundtrip(I, run, label + "/bytes", m, m3)
+        try:
+            data2 = I.call(I.getattr(m3, "to_string"), [], {})
+            e3 = I.ghost["et_serialised"].get(_tostring_key(I, data2))
+            e1 = I.ghost["et_serialised"].get(_tostring_key(I, data))
+            run.oblige("C03|%s/bytes/serialising-again-yields-identical-bytes" % label,
+                       xml_equal(I, e1, e3) if (e1 is not None and e3 is not None) else z3.BoolVal(False))
+        except IRaise as ex:
+            run.fail("C03|%s/bytes/second-serialisation-raises-nothing" % label, "raised %s" % ex)
+    return task
+
+
+DECL = b'<?xml version="1.0"?>\n'
+
+
+def _tostring_key(I, data):
+    """the serialised-element term inside  DECL + tostring(e) + b"\\n"  (None if the framing differs)"""
+    t = S(I.to_term(data))
+    for k, (term, snap) in I.ghost.get("et_terms", {}).items():
+        want = S(smt.VBytes(z3.Concat(z3.StringVal(DECL.decode()), term, z3.StringVal("\n"))))
+        if t.eq(want):
+            return k
+    return None
+
+
+def install_et_contract(I):
+    """Assumed contract of xml.etree (sampled natively on every run, never proved):
+    tostring is injective up to XML equivalence and fromstring(decl + tostring(e) + newline)
+    is an element with e's tag, attribute map, text and children (empty text == absent)."""
+    I.ghost.setdefault("et_terms", {})
+    I.ghost.setdefault("et_serialised", {})
+
+    def tostring(I_, x):
+        k = len(I_.ghost["et_terms"])
+        term = z3.Const("et_bytes!%d" % k, z3.StringSort())
+        snap = snapshot_xml(x)
+        I_.ghost["et_terms"][k] = (term, snap)
+        I_.ghost["et_serialised"][k] = snap
+        return Sym(smt.VBytes(term))
+
+    def fromstring(I_, s):
+        k = _tostring_key(I_, s)
+        if k is None:
+            raise OutOfReach("ET.fromstring on text that is not  declaration + tostring(e) + newline")
+        return snapshot_xml(I_.ghost["et_serialised"][k])
+    I.et_tostring_hook = tostring
+    I.et_fromstring_hook = fromstring
+
+
+def task_c03_foreign(ident):
+    """Equivalent foreign spelling of the library's own output -- attributes in another order,
+    text surrounded by (indentation) whitespace -- parses to the same message."""
+    def task(I, run):
+        from pyvc.strings import py_strip, _WS
+        from pyvc.stdlib_models import XElem
+        base = I.import_module("indi.message.base")
+        I.import_module("indi.message")
+        cls = find_class(I, ident)
+        msgs, parts = classes(I)
+        is_msg = cls in msgs
+        tag = tag_of(I, cls)
+        label = "foreign-spelling[%s]" % tag
+        try:
+            m = I.call(cls, [], valid_args(I, cls, tag, "m"))
+        except IRaise:
+            raise PathEnd()
+        run.explorer.witness = c03_witness(I, m)
+        root = base.ns["IndiMessage"] if is_msg else base.ns["IndiMessagePart"]
+        try:
+            e = I.call(I.getattr(m, "to_xml"), [] if is_msg else [XElem("parent", IDict(), None)], {})
+            m1 = I.call(I.getattr(root, "from_xml"), [snapshot_xml(e)], {})
+        except IRaise:
+            raise PathEnd()      # reported by the round-trip task
+        f = XElem(e.tag, IDict(dict(reversed(list(e.attrib.d.items())))), e.text)
+        if e.text is not None:
+            ws1, ws2 = I.fresh("ws1", z3.StringSort()), I.fresh("ws2", z3.StringSort())
+            t = get_s(I.to_term(e.text))
+            run.assume(z3.And(z3.InRe(ws1, z3.Star(_WS)), z3.InRe(ws2, z3.Star(_WS))))
+            padded = z3.Concat(ws1, t, ws2)
+            # assumed contract of str.strip on this term: surrounding whitespace is removed, nothing else
+            run.assume(py_strip(padded) == py_strip(t))
+            f.text = Sym(VStr(padded))
+        try:
+            m2 = I.call(I.getattr(root, "from_xml"), [f], {})
+        except IRaise as ex:
+            run.fail("C03|%s/parses" % label, "a reordered / indented spelling of the library's own output raised %s" % ex)
+            return
+        run.oblige("C03|%s/same-kind" % label, z3.BoolVal(isinstance(m2, IObject) and isinstance(m1, IObject) and m2.cls is m1.cls))
+        if isinstance(m2, IObject) and isinstance(m1, IObject) and m2.cls is m1.cls:
+            for fld, v in m1.fields.items():
+                if fld == "children" or fld not in m2.fields:
+                    continue
+                a_, b_ = I.to_term(m2.fields[fld]), I.to_term(v)
+                if fld == "value":      # statement: empty text equals absent text
+                    empty = VStr(z3.StringVal(""))
+                    a_, b_ = z3.If(a_ == empty, VNone, a_), z3.If(b_ == empty, VNone, b_)
+                run.oblige("C03|%s/attribute-%s-is-read-the-same" % (label, fld), a_ == b_)
+    return task
+
+
+def snapshot_xml(e):
+    from pyvc.stdlib_models import XElem
+    x = XElem(e.tag, IDict(e.attrib.d), e.text)
+    x.children = [snapshot_xml(c) for c in e.children]
+    return x
+
+
+def task_c03_part(ident):
+    def task(I, run):
+        from pyvc.stdlib_models import XElem
+        base = I.import_module("indi.message.base")
+        cls = find_class(I, ident)
+        tag = tag_of(I, cls)
+        label = "roundtrip[%s]" % tag
+        try:
+            p = I.call(cls, [], valid_args(I, cls, tag, "p"))
+        except IRaise:
+            raise PathEnd()
+        run.explorer.witness = c03_witness(I, p)
+        parent = XElem("parent", IDict(), None)
+        try:
+            e = I.call(I.getattr(p, "to_xml"), [parent], {})
+        except IRaise as ex:
+            run.fail("C03|%s/serialising-a-valid-part-raises-nothing" % label, "to_xml raised %s" % ex)
+            return
+        run.oblige("C03|%s/appended-to-its-parent-exactly-once" % label, z3.BoolVal(parent.children == [e]))
+        snap = snapshot_xml(e)
+        try:
+            p2 = I.call(I.getattr(base.ns["IndiMessagePart"], "from_xml"), [e], {})
+        except IRaise as ex:
+            run.fail("C03|%s/own-output-parses" % label, "from_xml(to_xml(p)) raised %s" % ex)
+            return
+        same_after_roundtrip(I, run, label, p, p2)
+        if isinstance(p2, IObject):
+            parent2 = XElem("parent", IDict(), None)
+            try:
+                e2 = I.call(I.getattr(p2, "to_xml"), [parent2], {})
+                run.oblige("C03|%s/second-serialisation-is-identical" % label, xml_equal(I, snap, e2))
+            except IRaise as ex:
+                run.fail("C03|%s/second-serialisation-raises-nothing" % label, "to_xml of the parsed part raised %s" % ex)
+    return task
+
+
+def task_c03_registry():
+    """every kind the library can emit is registered with the parser, under pairwise distinct tags;
+    to_string frames the element with the XML declaration and a newline"""
+    def task(I, run):
+        base = I.import_module("indi.message.base")
+        I.import_module("indi.message")
+        msgs, parts = classes(I)
+        IM = base.ns["IndiMessage"]
+        reg = list(I.getattr(IM, "_message_classes").items)
+        tags = {}
+        for c in msgs:
+            emit = bool(I.getattr(c, "from_client")) or bool(I.getattr(c, "from_device"))
+            if emit:
+                run.oblige("C03|registry/%s-is-registered-with-the-parser" % c.name, z3.BoolVal(c in reg),
+                           witness=lambda m, c=c: {"replay_kind": "codec.registry", "class": c.name, "module": c.module.name})
+        for c in reg:
+            t = tag_of(I, c)
+            run.oblige("C03|registry/tag-%s-is-unique" % t, z3.BoolVal(t not in tags))
+            tags[t] = c
+        # the wire names are the protocol's (INDI white paper), not whatever tag_name computes
+        protocol = {"defTextVector", "defNumberVector", "defSwitchVector", "defLightVector", "defBLOBVector", "setTextVector",
+                    "setNumberVector", "setSwitchVector", "setLightVector", "setBLOBVector", "newTextVector", "newNumberVector",
+                    "newSwitchVector", "newBLOBVector", "getProperties", "delProperty", "message", "enableBLOB", "pingRequest", "pingReply"}
+        for t in sorted(protocol):
+            run.oblige("C03|registry/protocol-kind-%s-has-a-class" % t, z3.BoolVal(t in tags))
+        pprotocol = {"defText", "defNumber", "defSwitch", "defLight", "defBLOB", "oneText", "oneNumber", "oneSwitch", "oneLight", "oneBLOB"}
+        ptags = {}
+        for t in sorted(pprotocol):
+            run.oblige("C03|registry/protocol-part-%s-has-a-class" % t, z3.BoolVal(t in [tag_of(I, c) for c in parts]))
+        for c in parts:
+            t = tag_of(I, c)
+            run.oblige("C03|registry/part-tag-%s-is-unique" % t, z3.BoolVal(t not in ptags))
+            ptags[t] = c
+    return task
